@@ -4,6 +4,7 @@ package client
 
 import (
 	"context"
+	"encoding/json"
 	"fmt"
 	"net"
 	"net/netip"
@@ -11,9 +12,12 @@ import (
 	"sort"
 	"strings"
 	"testing"
+	"time"
 
 	"github.com/AdguardTeam/AdGuardHome/internal/dhcpsvc"
 	"github.com/AdguardTeam/AdGuardHome/internal/filtering"
+	"github.com/AdguardTeam/AdGuardHome/internal/schedule"
+	"github.com/AdguardTeam/dnsproxy/upstream"
 	"github.com/AdguardTeam/golibs/logutil/slogutil"
 	"github.com/AdguardTeam/golibs/timeutil"
 )
@@ -48,6 +52,255 @@ var c04CIDs = []string{"cli1", "cli2", "Phone"}
 // extra spellings probed but never stored
 var c04Extra = []string{"10.1.2.77", "10.1.200.1", "10.200.0.1", "2001:db8:1::99", "2001:db8:ffff::1", "8.8.8.8",
 	"phone", "0200.5e10.0000.0001", "AA-BB-CC-DD-EE-01", "nobody"}
+
+// ---- tags and upstream lines (Persistent.validate)
+
+var c04BadTags = []string{"bad_tag", "user_", "USER_ADMIN", ""}
+
+// upstream lines: accepted forms, rejected forms, and the form on which
+// dnsproxy's parseLine panics (a domain specification followed by white space
+// only).
+var c04UpLines = []string{
+	"", "# comment", "#", "1.1.1.1", "8.8.8.8:53", "tls://dns.example", "https://dns.example/dns-query",
+	"[/lan/]10.0.0.1", "[/a.example/b.example/]1.1.1.1 8.8.8.8", "[/lan/]#", "[/*.corp.example/]# 9.9.9.9",
+	"[//]1.1.1.1", "[/lan//]1.1.1.1", "[/*.lan/local/]tls://dns.example\t1.1.1.1  ",
+	"[/lan/]", "[/lan", "[/123/]1.1.1.1", "[/a..b/]1.1.1.1", "[/-a.example/]1.1.1.1", "[/a.example-/]1.1.1.1",
+	"bad://x", "[/lan/]1.1.1.1 bad://x", "1.1.1.1 2.2.2.2", "[/lan/]/]1.1.1.1", " ", " 1.1.1.1",
+	"[/lan/] ", "[/lan/]\t \t", "[/a.example/lan/] \n",
+	"[/" + strings.Repeat("a", 63) + ".example/]1.1.1.1", "[/" + strings.Repeat("a", 64) + ".example/]1.1.1.1",
+	"[/lan/]# bad://x", "[/lan/]#1.1.1.1", "[/LAN/*.Example/]1.1.1.1",
+}
+
+// c04Tokens lists what the parser hands to upstream.AddressToUpstream for a
+// line (over-approximated: every candidate token), so that the model's oracle
+// knows the real function's verdict on each.
+func c04Tokens(line string) (toks []string) {
+	toks = append(toks, line)
+	if rest, ok := strings.CutPrefix(line, "[/"); ok {
+		if _, ups, found := strings.Cut(rest, "/]"); found {
+			toks = append(toks, strings.Fields(ups)...)
+		}
+	}
+	return toks
+}
+
+func c04AddrOK(tok string) (ok bool) {
+	defer func() {
+		if rec := recover(); rec != nil {
+			ok = false
+		}
+	}()
+	u, err := upstream.AddressToUpstream(tok, &upstream.Options{})
+	if err != nil {
+		return false
+	}
+	_ = u.Close()
+	return true
+}
+
+// c04LineOK is the monitor's own reading of a well-formed upstream line.
+func c04LineOK(line string) bool {
+	switch {
+	case line == "" || line[0] == '#':
+		return true
+	case !strings.HasPrefix(line, "[/"):
+		return c04AddrOK(line)
+	}
+	i := strings.Index(line[2:], "/]")
+	if i < 0 {
+		return false
+	}
+	doms, ups := line[2:2+i], line[2+i+2:]
+	fs := strings.Fields(ups)
+	if len(fs) == 0 {
+		return false
+	}
+	for _, d := range strings.Split(doms, "/") {
+		d = strings.TrimPrefix(d, "*.")
+		if d == "" {
+			continue
+		}
+		if len(d) > 253 {
+			return false
+		}
+		labels := strings.Split(d, ".")
+		for _, l := range labels {
+			if l == "" || len(l) > 63 {
+				return false
+			}
+		}
+		tld := labels[len(labels)-1]
+		if !c04TLDRe(tld) {
+			return false
+		}
+	}
+	if fs[0] == "#" {
+		return true
+	}
+	for _, f := range fs {
+		if !c04AddrOK(f) {
+			return false
+		}
+	}
+	return true
+}
+
+func c04TLDRe(l string) bool {
+	alnum := func(b byte) bool { return b >= 'a' && b <= 'z' || b >= 'A' && b <= 'Z' || b >= '0' && b <= '9' }
+	if l == "" || len(l) > 63 || !alnum(l[0]) || !alnum(l[len(l)-1]) {
+		return false
+	}
+	digits := true
+	for i := 0; i < len(l); i++ {
+		if !alnum(l[i]) && l[i] != '-' {
+			return false
+		}
+		if l[i] < '0' || l[i] > '9' {
+			digits = false
+		}
+	}
+	return !digits
+}
+
+// ---- pause schedules (built through the JSON form, whole minutes), zones
+
+var c04ZoneNames = []string{"UTC", "Asia/Kolkata", "America/New_York", "Pacific/Kiritimati", "Pacific/Pago_Pago"}
+
+type c04Zone struct {
+	name string
+	loc  *time.Location
+}
+
+var c04Zones []c04Zone
+
+func c04InitZones() {
+	c04Zones = nil
+	for _, n := range c04ZoneNames {
+		if loc, err := time.LoadLocation(n); err == nil {
+			c04Zones = append(c04Zones, c04Zone{n, loc})
+		}
+	}
+}
+
+// c04Sched is a schedule together with what the model needs to know of it.
+type c04Sched struct {
+	w    *schedule.Weekly
+	zone int
+	mins [7][2]int // start, end in minutes from local midnight
+	kind string
+}
+
+var c04Days = []string{"sun", "mon", "tue", "wed", "thu", "fri", "sat"}
+
+func c04MkSched(zone int, mins [7][2]int, kind string) *c04Sched {
+	doc := map[string]any{"time_zone": c04Zones[zone].name}
+	for d, r := range mins {
+		if r != [2]int{} {
+			doc[c04Days[d]] = map[string]any{"start": r[0] * 60000, "end": r[1] * 60000}
+		}
+	}
+	b, _ := json.Marshal(doc)
+	w := &schedule.Weekly{}
+	if err := json.Unmarshal(b, w); err != nil {
+		panic(fmt.Sprintf("c04 schedule %s: %v", b, err))
+	}
+	return &c04Sched{w: w, zone: zone, mins: mins, kind: kind}
+}
+
+// c04RandSched draws a schedule positioned relative to the instant now: always
+// / never pausing, pausing today only, every day but today, a range around
+// now, a range before now.  Range edges are kept at least two hours (or a
+// local midnight) away from now; an observation during which any schedule in
+// play changes its verdict is repeated, never reported.
+func c04RandSched(r *vfRand, now time.Time) *c04Sched {
+	z := r.Intn(len(c04Zones))
+	lt := now.In(c04Zones[z].loc)
+	d := int(lt.Weekday())
+	tod := lt.Hour()*60 + lt.Minute()
+	var m [7][2]int
+	full := [2]int{0, 1440}
+	nearMidnight := tod < 5 || tod > 1434
+	k := r.Intn(6)
+	if nearMidnight && k >= 2 {
+		k = r.Intn(2)
+	}
+	kind := ""
+	switch k {
+	case 0:
+		kind = "always"
+		for i := range m {
+			m[i] = full
+		}
+	case 1:
+		kind = "never"
+	case 2:
+		kind = "today-only"
+		m[d] = full
+		m[(d+3)%7] = [2]int{60, 120}
+	case 3:
+		kind = "not-today"
+		for i := range m {
+			m[i] = full
+		}
+		m[d] = [2]int{}
+	case 4:
+		kind = "around-now"
+		m[d] = [2]int{max(0, tod-120), min(1440, tod+121)}
+		m[(d+1)%7] = [2]int{}
+		m[(d+6)%7] = [2]int{0, 1}
+	default:
+		kind = "not-now"
+		if tod >= 240 {
+			m[d] = [2]int{tod - 240, tod - 120}
+		} else {
+			m[d] = [2]int{tod + 120, min(1440, tod+300)}
+		}
+		m[(d+1)%7] = full
+		m[(d+6)%7] = full
+	}
+	return c04MkSched(z, m, kind)
+}
+
+func c04CoqSched(sc *c04Sched) string {
+	items := make([]string, 7)
+	for i, r := range sc.mins {
+		items[i] = vfApp("mkr", vfZ(int64(r[0])), vfZ(int64(r[1])))
+	}
+	return vfList("Schedule.day_range", items)
+}
+
+// schedules by the *schedule.Weekly the records carry
+var c04SchedOf = map[*schedule.Weekly]*c04Sched{}
+
+func c04Reg(sc *c04Sched) *schedule.Weekly {
+	c04SchedOf[sc.w] = sc
+	return sc.w
+}
+
+// real service ids plus ids the binary has no rules for
+var c04Services = []string{"youtube", "facebook", "tiktok", "9gag", "no_such_service", "x"}
+
+func c04Known() (known []string) {
+	for _, id := range c04Services {
+		if (&filtering.BlockedServices{IDs: []string{id}}).Validate() == nil {
+			known = append(known, id)
+		}
+	}
+	return known
+}
+
+func c04RandBlocked(r *vfRand, now time.Time, onlyKnown bool) *filtering.BlockedServices {
+	var ids []string
+	for _, id := range c04Services {
+		if r.Chance(1, 3) {
+			ids = append(ids, id)
+		}
+	}
+	if onlyKnown {
+		ids = slices.DeleteFunc(ids, func(id string) bool { return !slices.Contains(c04Known(), id) })
+	}
+	return &filtering.BlockedServices{Schedule: c04Reg(c04RandSched(r, now)), IDs: ids}
+}
 
 // ---- DHCP stub
 
@@ -91,15 +344,38 @@ func (u *c04UIDs) num(id UID) uint64 {
 	return n
 }
 
-func c04Blocked(b *filtering.BlockedServices) string {
-	if b == nil {
-		return vfOpt("list bytes", false, "")
-	}
-	items := make([]string, len(b.IDs))
-	for i, s := range b.IDs {
+func c04Strs(xs []string) string {
+	items := make([]string, len(xs))
+	for i, s := range xs {
 		items[i] = vfBytes(s)
 	}
-	return vfOpt("list bytes", true, vfList("bytes", items))
+	return vfList("bytes", items)
+}
+
+// c04BlockedVal prints a BlockedServices value with its schedule; a value
+// without a (known) schedule is printed with the empty schedule (it is only
+// compared by its ids then, or never asked for a pause verdict).
+func c04BlockedVal(b *filtering.BlockedServices) string {
+	sched, zone := vfList("Schedule.day_range", nil), uint64(0)
+	if sc := c04SchedOf[b.Schedule]; sc != nil && b.Schedule != nil {
+		sched, zone = c04CoqSched(sc), uint64(sc.zone)
+	}
+	return vfApp("mkb", c04Strs(b.IDs), sched, vfN(zone))
+}
+
+func c04Blocked(b *filtering.BlockedServices) string {
+	if b == nil {
+		return vfOpt("blocked", false, "")
+	}
+	return vfOpt("blocked", true, c04BlockedVal(b))
+}
+
+// observed settings: only the ids of the BlockedServices value are compared
+func c04BlockedObs(b *filtering.BlockedServices) string {
+	if b == nil {
+		return vfOpt("blocked", false, "")
+	}
+	return vfOpt("blocked", true, vfApp("ob", c04Strs(b.IDs)))
 }
 
 func c04Client(u *c04UIDs, p *Persistent) string {
@@ -123,12 +399,26 @@ func c04Client(u *c04UIDs, p *Persistent) string {
 		vfList("bytes * N", nets), vfList("bytes", macs),
 		vfBool(p.UseOwnSettings), vfBool(p.FilteringEnabled), vfBool(p.SafeSearchConf.Enabled),
 		vfBool(p.SafeBrowsingEnabled), vfBool(p.ParentalEnabled), vfBool(p.UseOwnBlockedServices),
-		c04Blocked(p.BlockedServices), vfBool(p.IgnoreQueryLog), vfBool(p.IgnoreStatistics))
+		c04Blocked(p.BlockedServices), vfBool(p.IgnoreQueryLog), vfBool(p.IgnoreStatistics),
+		c04Strs(p.Tags), c04Strs(p.Upstreams))
 }
 
 func c04Settings(s *filtering.Settings) string {
+	svc := make([]string, len(s.ServicesRules))
+	for i, e := range s.ServicesRules {
+		svc[i] = e.Name
+	}
 	return vfApp("mks", vfBytes(s.ClientName), vfBool(s.FilteringEnabled), vfBool(s.SafeSearchEnabled),
-		vfBool(s.SafeBrowsingEnabled), vfBool(s.ParentalEnabled), c04Blocked(s.BlockedServices))
+		vfBool(s.SafeBrowsingEnabled), vfBool(s.ParentalEnabled), c04BlockedObs(s.BlockedServices),
+		c04Strs(s.ClientTags), c04Strs(svc))
+}
+
+// c04SettingsIn prints the settings handed to ApplyClientFiltering (with the
+// schedule of their BlockedServices value, if any).
+func c04SettingsIn(s *filtering.Settings) string {
+	return vfApp("mks", vfBytes(s.ClientName), vfBool(s.FilteringEnabled), vfBool(s.SafeSearchEnabled),
+		vfBool(s.SafeBrowsingEnabled), vfBool(s.ParentalEnabled), c04BlockedObs(s.BlockedServices),
+		c04Strs(s.ClientTags), c04Strs(nil))
 }
 
 func c04ErrClass(err error) int {
@@ -153,13 +443,17 @@ func c04ErrClass(err error) int {
 		return 8
 	case strings.Contains(s, "empty name"), strings.Contains(s, "id required"), strings.Contains(s, "uid required"):
 		return 1
+	case strings.Contains(s, "invalid upstream servers"):
+		return 9
+	case strings.Contains(s, "invalid tag"):
+		return 10
 	default:
 		return 99
 	}
 }
 
 var c04ErrNames = map[int]string{0: "ok", 1: "validate", 2: "uid", 3: "name", 4: "clientid", 5: "ip", 6: "subnet",
-	7: "mac", 8: "notfound", 99: "other"}
+	7: "mac", 8: "notfound", 9: "upstream", 10: "tag", 11: "panic", 99: "other"}
 
 // ---- reference registry (the monitor's own, trivial, bookkeeping)
 
@@ -280,9 +574,22 @@ type c04Hist struct {
 	nOK    map[string]int
 	prev   string
 	moved  map[string]uint64 // identifier -> last owner uid (for the id-move class)
+
+	// the filter the storage is wired into (ApplyAdditionalFiltering), its
+	// configuration (the harness changes BlockedServices between steps), the
+	// instant the history's schedules are positioned around, the verdicts of
+	// upstream.AddressToUpstream on every token seen
+	flt    *filtering.DNSFilter
+	fconf  *filtering.Config
+	gb0    string
+	now    time.Time
+	addrs  map[string]bool
+	aprev  string
+	nRetry int
 }
 
 func c04NewHist(t *testing.T, r *vfRand, ids []string) *c04Hist {
+	c04SchedOf = map[*schedule.Weekly]*c04Sched{}
 	d := &c04DHCP{tbl: map[netip.Addr]net.HardwareAddr{}}
 	s, err := NewStorage(context.Background(), &StorageConfig{
 		Logger: slogutil.NewDiscardLogger(),
@@ -293,7 +600,18 @@ func c04NewHist(t *testing.T, r *vfRand, ids []string) *c04Hist {
 		t.Fatal(err)
 	}
 	h := &c04Hist{t: t, r: r, s: s, dhcp: d, uids: &c04UIDs{m: map[UID]uint64{}}, ref: &c04Ref{byName: map[string]*Persistent{}},
-		ids: ids, cls: map[string]bool{}, nOK: map[string]int{}, moved: map[string]uint64{}}
+		ids: ids, cls: map[string]bool{}, nOK: map[string]int{}, moved: map[string]uint64{}, addrs: map[string]bool{},
+		now: time.Now()}
+	h.fconf = &filtering.Config{
+		DataDir:              c04DataDir,
+		ApplyClientFiltering: s.ApplyClientFiltering,
+		BlockedServices:      c04RandBlocked(r.Fork(77), h.now, true),
+	}
+	h.gb0 = c04BlockedVal(h.fconf.BlockedServices)
+	h.flt, err = filtering.New(h.fconf, nil)
+	if err != nil {
+		t.Fatal(err)
+	}
 	spell := append([]string{}, ids...)
 	for _, e := range c04Extra {
 		if r.Chance(2, 3) {
@@ -348,6 +666,117 @@ func c04NewHist(t *testing.T, r *vfRand, ids []string) *c04Hist {
 	}
 	h.prev = h.observe()
 	return h
+}
+
+var c04DataDir string
+
+// observeAAF runs DNSFilter.ApplyAdditionalFiltering (the storage behind it)
+// for every (ClientID, address) pair on fresh settings, at one instant: it is
+// repeated when a schedule in play or a zone offset changed while it ran.
+func (h *c04Hist) observeAAF() string {
+	for try := 0; ; try++ {
+		t0 := time.Now()
+		res := make([]string, len(h.pairs))
+		got := make([]*filtering.Settings, len(h.pairs))
+		for i, q := range h.pairs {
+			got[i] = h.applyAAF(q)
+			if got[i] == nil {
+				res[i] = vfOpt("settings", false, "")
+			} else {
+				res[i] = vfOpt("settings", true, c04Settings(got[i]))
+			}
+		}
+		t1 := time.Now()
+		stable := true
+		for w := range c04SchedOf {
+			if w.Contains(t0) != w.Contains(t1) {
+				stable = false
+			}
+		}
+		offs := make([]string, len(c04Zones))
+		for i, z := range c04Zones {
+			_, o0 := t0.In(z.loc).Zone()
+			_, o1 := t1.In(z.loc).Zone()
+			if o0 != o1 {
+				stable = false
+			}
+			offs[i] = vfZ(int64(o0))
+		}
+		if !stable && try < 5 {
+			h.nRetry++
+			continue
+		}
+		if stable {
+			h.monitorAAF(t0, got)
+		}
+		return "(" + vfZ(t0.UnixNano()) + ", " + vfList("Z", offs) + ", " + vfList("option settings", res) + ")"
+	}
+}
+
+func (h *c04Hist) applyAAF(q c04Pair) (setts *filtering.Settings) {
+	defer func() {
+		if rec := recover(); rec != nil {
+			setts = nil
+		}
+	}()
+	g := h.glob
+	g.BlockedServices = nil
+	h.flt.ApplyAdditionalFiltering(q.a, q.cid, &g)
+	return &g
+}
+
+// monitorAAF states clause "own blocked services are applied exactly when the
+// client opts out of the global ones" on the effective service rules: a
+// client with UseOwnBlockedServices gets its own list unless its OWN schedule
+// pauses at the instant, and never the global list; everybody else gets the
+// global list unless the global schedule pauses.
+func (h *c04Hist) monitorAAF(t0 time.Time, got []*filtering.Settings) {
+	known := c04Known()
+	eff := func(b *filtering.BlockedServices) (names []string) {
+		if b.Schedule.Contains(t0) {
+			return nil
+		}
+		for _, id := range b.IDs {
+			if slices.Contains(known, id) {
+				names = append(names, id)
+			}
+		}
+		return names
+	}
+	for i, q := range h.pairs {
+		if got[i] == nil {
+			h.fail("aaf-panic", fmt.Sprintf("ApplyAdditionalFiltering(%v, %q) panicked", q.a, q.cid))
+			continue
+		}
+		wantP, _ := h.ref.resolve(q.cid, q.a, h.dhcp, nil)
+		src, cl := h.fconf.BlockedServices, "services-global"
+		if wantP != nil && wantP.UseOwnBlockedServices && wantP.BlockedServices != nil {
+			src, cl = wantP.BlockedServices, "services-own"
+		}
+		want := eff(src)
+		if src.Schedule.Contains(t0) {
+			cl += "-paused"
+		}
+		h.cls[cl] = true
+		if cl == "services-own-paused" && len(eff(h.fconf.BlockedServices)) > 0 {
+			h.cls["services-own-paused-global-active"] = true
+		}
+		var names []string
+		for _, e := range got[i].ServicesRules {
+			names = append(names, e.Name)
+		}
+		if !slices.Equal(names, want) {
+			h.fail("effective-services", fmt.Sprintf("ApplyAdditionalFiltering(%v, %q): service rules %v, expected %v (%s; client %v)",
+				q.a, q.cid, names, want, cl, wantP != nil))
+		}
+		if wantP != nil {
+			wt := slices.Clone(wantP.Tags)
+			sort.Strings(wt)
+			if !slices.Equal(got[i].ClientTags, wt) && (len(wt) > 0 || len(got[i].ClientTags) > 0) {
+				h.fail("client-tags", fmt.Sprintf("ApplyAdditionalFiltering(%v, %q): tags %v, the client's are %v", q.a, q.cid, got[i].ClientTags, wt))
+			}
+		}
+	}
 }
 
 func (h *c04Hist) fail(key, msg string) {
@@ -560,6 +989,7 @@ func (h *c04Hist) monitor(opDesc string, errClass int) {
 				h.cls["own-blocked"] = true
 				exp.BlockedServices = wantP.BlockedServices
 			}
+			exp.ClientTags = wantP.Tags
 		}
 		if c04Settings(g) != c04Settings(&exp) {
 			h.fail("acf-settings", fmt.Sprintf("after %s ApplyClientFiltering(%q, %v): got %s, by precedence (%s) expected %s",
@@ -571,7 +1001,8 @@ func (h *c04Hist) monitor(opDesc string, errClass int) {
 func (h *c04Hist) record(coqOp, desc string, errClass int) {
 	h.cls["err-"+c04ErrNames[errClass]] = true
 	h.monitor(desc, errClass)
-	h.steps = append(h.steps, vfPair(coqOp, "("+vfN(uint64(errClass))+", "+h.prev+")"))
+	h.aprev = h.observeAAF()
+	h.steps = append(h.steps, "("+coqOp+", ("+vfN(uint64(errClass))+", "+h.prev+"), "+h.aprev+")")
 	h.desc = append(h.desc, fmt.Sprintf("%s -> %s", desc, c04ErrNames[errClass]))
 }
 
@@ -589,8 +1020,14 @@ func (h *c04Hist) noteOwned(p *Persistent) {
 
 func (h *c04Hist) add(p *Persistent) {
 	coq := vfApp("HOp", vfApp("OAdd", c04Client(h.uids, p)))
-	desc := fmt.Sprintf("add %s %v", p.Name, p.IDs())
-	err := h.s.Add(context.Background(), p)
+	desc := fmt.Sprintf("add %s %v tags=%q ups=%q", p.Name, p.IDs(), p.Tags, p.Upstreams)
+	h.noteTokens(p)
+	err, panicked := h.guard(func() error { return h.s.Add(context.Background(), p) })
+	if panicked {
+		h.record(coq, desc, 11)
+		return
+	}
+	h.checkAccepted("add", p, err)
 	if err == nil {
 		h.ref.byName[p.Name] = c04Clone(p)
 		h.nOK["add"]++
@@ -601,9 +1038,15 @@ func (h *c04Hist) add(p *Persistent) {
 
 func (h *c04Hist) update(name string, p *Persistent) {
 	coq := vfApp("HOp", vfApp("OUpdate", vfBytes(name), c04Client(h.uids, p)))
-	desc := fmt.Sprintf("update %s := %s %v", name, p.Name, p.IDs())
+	desc := fmt.Sprintf("update %s := %s %v tags=%q ups=%q", name, p.Name, p.IDs(), p.Tags, p.Upstreams)
 	old := h.ref.byName[name]
-	err := h.s.Update(context.Background(), name, p)
+	h.noteTokens(p)
+	err, panicked := h.guard(func() error { return h.s.Update(context.Background(), name, p) })
+	if panicked {
+		h.record(coq, desc, 11)
+		return
+	}
+	h.checkAccepted("update", p, err)
 	if err == nil {
 		if old != nil {
 			if old.Name != p.Name {
@@ -621,6 +1064,66 @@ func (h *c04Hist) update(name string, p *Persistent) {
 		h.noteOwned(p)
 	}
 	h.record(coq, desc, c04ErrClass(err))
+}
+
+func (h *c04Hist) guard(f func() error) (err error, panicked bool) {
+	defer func() {
+		if rec := recover(); rec != nil {
+			err, panicked = nil, true
+		}
+	}()
+	return f(), false
+}
+
+func (h *c04Hist) noteTokens(p *Persistent) {
+	for _, l := range p.Upstreams {
+		for _, tok := range c04Tokens(l) {
+			if _, seen := h.addrs[tok]; !seen {
+				h.addrs[tok] = c04AddrOK(tok)
+			}
+		}
+	}
+}
+
+// checkAccepted: an accepted record carries only allowed tags and well-formed
+// upstream lines; a record with a foreign tag or a malformed line is refused.
+func (h *c04Hist) checkAccepted(what string, p *Persistent, err error) {
+	badTag, badLine := "", ""
+	hasBadTag, hasBadLine := false, false
+	for _, t := range p.Tags {
+		if !slices.Contains(allowedTags, t) {
+			badTag, hasBadTag = t, true
+		}
+	}
+	for _, l := range p.Upstreams {
+		if !c04LineOK(l) {
+			badLine, hasBadLine = l, true
+		}
+	}
+	if len(p.Tags) > 0 {
+		h.cls["with-tags"] = true
+	}
+	if len(p.Upstreams) > 0 {
+		h.cls["with-upstreams"] = true
+	}
+	if err == nil && hasBadTag {
+		h.fail("tag-accepted", fmt.Sprintf("%s %s accepted with tag %q outside the allowed list", what, p.Name, badTag))
+	}
+	if err == nil && hasBadLine {
+		h.fail("upstream-accepted", fmt.Sprintf("%s %s accepted with malformed upstream line %q", what, p.Name, badLine))
+	}
+	if err == nil && !slices.IsSorted(p.Tags) {
+		h.fail("tags-unsorted", fmt.Sprintf("%s %s accepted, tags left unsorted: %q", what, p.Name, p.Tags))
+	}
+	if ec := c04ErrClass(err); (ec == 9 && !hasBadLine) || (ec == 10 && !hasBadTag) {
+		h.fail("valid-record-refused", fmt.Sprintf("%s %s refused (%v) although tags %q and upstreams %q are well-formed", what, p.Name, err, p.Tags, p.Upstreams))
+	}
+}
+
+func (h *c04Hist) setGlobal(b *filtering.BlockedServices) {
+	h.fconf.BlockedServices = b
+	h.prev = h.observe()
+	h.record(vfApp("HGlobal", c04BlockedVal(b)), fmt.Sprintf("global blocked services %v (%s)", b.IDs, c04SchedOf[b.Schedule].kind), 0)
 }
 
 func (h *c04Hist) remove(name string) {
@@ -661,13 +1164,32 @@ func c04Mk(name string, ids []string, r *vfRand) *Persistent {
 		p.UseOwnSettings, p.FilteringEnabled, p.SafeBrowsingEnabled = r.Bool(), r.Bool(), r.Bool()
 		p.ParentalEnabled, p.SafeSearchConf.Enabled = r.Bool(), r.Bool()
 		p.UseOwnBlockedServices = r.Bool()
-		switch r.Intn(3) {
+		switch r.Intn(4) {
 		case 0:
-			p.BlockedServices = &filtering.BlockedServices{}
-		case 1:
-			p.BlockedServices = &filtering.BlockedServices{IDs: []string{"s" + name, "x"}}
+			p.BlockedServices = &filtering.BlockedServices{Schedule: c04Reg(c04MkSched(0, [7][2]int{}, "never"))}
+		case 1, 2:
+			p.BlockedServices = c04RandBlocked(r, time.Now(), false)
 		}
 		p.IgnoreQueryLog, p.IgnoreStatistics = r.Bool(), r.Bool()
+		if r.Chance(1, 2) {
+			for i := r.Intn(3); i >= 0; i-- {
+				p.Tags = append(p.Tags, vfPick(r, allowedTags))
+			}
+			if r.Chance(1, 8) {
+				p.Tags = append(p.Tags, vfPick(r, c04BadTags))
+				vfShuffle(r, p.Tags)
+			}
+		}
+		if r.Chance(1, 2) {
+			good := c04UpLines[:14]
+			for i := r.Intn(3); i >= 0; i-- {
+				p.Upstreams = append(p.Upstreams, vfPick(r, good))
+			}
+			if r.Chance(1, 5) {
+				p.Upstreams = append(p.Upstreams, vfPick(r, c04UpLines))
+				vfShuffle(r, p.Upstreams)
+			}
+		}
 	}
 	return p
 }
@@ -686,8 +1208,23 @@ func (h *c04Hist) emit(out *vfOut, tag string) {
 	for i, q := range h.pairs {
 		pairs[i] = vfPair(vfBytes(q.cid), c04Addr(q.a))
 	}
+	toks := make([]string, 0, len(h.addrs))
+	for tok := range h.addrs {
+		toks = append(toks, tok)
+	}
+	sort.Strings(toks)
+	tokItems := make([]string, len(toks))
+	for i, tok := range toks {
+		tokItems[i] = vfPair(vfBytes(tok), vfBool(h.addrs[tok]))
+	}
+	g2 := h.glob
+	g2.BlockedServices = nil
+	env := vfApp("mkenv", c04Strs(h.s.allowedTags), vfList("bytes * bool", tokItems), c04Strs(c04Known()), c04Settings(&g2))
 	coq := vfApp("CHist", vfList("bytes * option (bytes * bytes) * option bytes", finds), vfList("bytes", names),
-		vfList("bytes * (bytes * bytes)", pairs), c04Settings(&h.glob), vfList("hstep * obs", h.steps))
+		vfList("bytes * (bytes * bytes)", pairs), c04SettingsIn(&h.glob), env, h.gb0, vfList("hstep * obs * aobs", h.steps))
+	if h.nRetry > 0 {
+		h.cls["aaf-observation-repeated"] = true
+	}
 	var classes []string
 	for c := range h.cls {
 		classes = append(classes, c)
@@ -784,6 +1321,8 @@ func (h *c04Hist) randOp() {
 			name = vfPick(r, existing)
 		}
 		h.remove(name)
+	case k < 94:
+		h.setGlobal(c04RandBlocked(r, h.now, true))
 	default:
 		tbl := map[netip.Addr]net.HardwareAddr{}
 		var macs []net.HardwareAddr
@@ -881,7 +1420,8 @@ func c04Prelude(t *testing.T, out *vfOut) {
 		p.UseOwnSettings, p.UseOwnBlockedServices = settings, blocked
 		p.FilteringEnabled, p.ParentalEnabled = !h.glob.FilteringEnabled, !h.glob.ParentalEnabled
 		p.SafeBrowsingEnabled, p.SafeSearchConf.Enabled = !h.glob.SafeBrowsingEnabled, !h.glob.SafeSearchEnabled
-		p.BlockedServices = &filtering.BlockedServices{IDs: []string{"own_" + p.Name}}
+		p.BlockedServices = &filtering.BlockedServices{IDs: []string{"own_" + p.Name, "youtube"},
+			Schedule: c04Reg(c04MkSched(0, [7][2]int{}, "never"))}
 		return p
 	}
 	h.add(own(c04Mk("a", []string{"10.0.0.0/8", "2001:db8::/32"}, nil), true, false))
@@ -935,15 +1475,78 @@ func c04Prelude(t *testing.T, out *vfOut) {
 	h.remove("d")
 	h.add(c04Mk("c", []string{"::/0"}, nil))
 	h.emit(out, "prelude-zones")
+
+	// Persistent.validate: tags (allowed, foreign, unsorted), upstream lines (every
+	// entry of the universe on its own, on add and on update), and the order of
+	// the checks (name / identifiers / uid before upstreams before tags)
+	h = c04NewHist(t, r.Fork(5), all)
+	withTU := func(p *Persistent, tags, ups []string) *Persistent { p.Tags, p.Upstreams = tags, ups; return p }
+	h.add(withTU(c04Mk("a", []string{"10.1.2.3"}, nil), []string{"user_child", "device_tv", "os_linux"}, []string{"1.1.1.1", "# c", "[/lan/]10.0.0.1"}))
+	h.add(withTU(c04Mk("b", []string{"10.1.2.4"}, nil), []string{"user_child", "bad_tag"}, nil))
+	h.add(withTU(c04Mk("b", []string{"10.1.2.4"}, nil), []string{"bad_tag"}, []string{"bad://x"}))  // upstream error first
+	h.add(withTU(c04Mk("", []string{"10.1.2.4"}, nil), []string{"bad_tag"}, []string{"[/lan/] "})) // empty name first: no panic
+	h.add(withTU(c04Mk("b", []string{"10.1.2.4"}, nil), nil, []string{"bad://x", "[/lan/] "}))      // a later line panics
+	h.add(withTU(c04Mk("b", []string{"10.1.2.4"}, nil), []string{"bad_tag"}, []string{"[/lan/]\t"}))
+	for i, l := range c04UpLines {
+		if i%2 == 0 {
+			h.add(withTU(c04Mk("b", []string{"10.1.2.4"}, nil), []string{"os_ios"}, []string{"8.8.8.8", l}))
+			h.remove("b")
+		} else {
+			h.update("a", withTU(c04Mk("a", []string{"10.1.2.3"}, nil), []string{"user_admin", "device_pc"}, []string{l}))
+		}
+	}
+	h.update("a", withTU(c04Mk("a", []string{"10.1.2.3"}, nil), []string{"user_child", "USER_ADMIN"}, nil))
+	h.update("a", withTU(c04Mk("c", []string{"10.1.2.3"}, nil), []string{"os_windows", "device_nas", "device_audio"}, []string{"[/lan/]#"}))
+	h.emit(out, "prelude-validate")
+
+	// own blocked services with the client's own schedule against the global
+	// list and the global schedule: every combination of pausing / not pausing
+	h = c04NewHist(t, r.Fork(6), all)
+	h.pairs = []c04Pair{
+		{"cli1", netip.MustParseAddr("10.1.2.3")}, {"", netip.MustParseAddr("10.1.2.3")},
+		{"", netip.MustParseAddr("10.7.7.7")}, {"", netip.MustParseAddr("192.168.1.5")}, {"", netip.MustParseAddr("8.8.8.8")},
+	}
+	h.prev = h.observe()
+	var always, never, todayOnly, notToday [7][2]int
+	for i := range always {
+		always[i] = [2]int{0, 1440}
+		notToday[i] = [2]int{0, 1440}
+	}
+	wd := int(h.now.In(c04Zones[len(c04Zones)-1].loc).Weekday())
+	todayOnly[wd] = [2]int{0, 1440}
+	notToday[wd] = [2]int{}
+	lastZone := len(c04Zones) - 1
+	bs := func(m [7][2]int, zone int, kind string, ids ...string) *filtering.BlockedServices {
+		return &filtering.BlockedServices{Schedule: c04Reg(c04MkSched(zone, m, kind)), IDs: ids}
+	}
+	ownB := func(p *Persistent, own bool, b *filtering.BlockedServices) *Persistent {
+		p.UseOwnBlockedServices, p.BlockedServices = own, b
+		return p
+	}
+	h.setGlobal(bs(never, 0, "never", "facebook", "tiktok"))
+	h.add(ownB(c04Mk("a", []string{"cli1"}, nil), true, bs(always, 0, "always", "youtube", "x")))      // paused: nothing, not the global list
+	h.add(ownB(c04Mk("b", []string{"10.1.2.3"}, nil), true, bs(never, 1%len(c04Zones), "never", "youtube", "no_such_service", "9gag")))
+	h.add(ownB(c04Mk("c", []string{"10.7.7.7"}, nil), false, bs(never, 0, "never", "youtube")))          // not own: global list
+	h.add(ownB(c04Mk("d", []string{"192.168.1.5"}, nil), true, nil))                                      // own, nil record: global list
+	h.setGlobal(bs(always, 0, "always", "facebook"))                                                       // global paused, own lists unaffected
+	h.update("a", ownB(c04Mk("a", []string{"cli1"}, nil), true, bs(todayOnly, lastZone, "today-only", "youtube")))
+	h.update("b", ownB(c04Mk("b", []string{"10.1.2.3"}, nil), true, bs(notToday, lastZone, "not-today", "tiktok")))
+	h.setGlobal(bs(notToday, lastZone, "not-today", "facebook", "9gag"))
+	h.update("c", ownB(c04Mk("c", []string{"10.7.7.7"}, nil), true, bs(never, 0, "never")))               // own empty list
+	h.remove("a")
+	h.emit(out, "prelude-services")
 }
 
 func TestVerifC04(t *testing.T) {
 	out := vfOpen(t, "C04")
 	defer out.Close()
+	filtering.InitModule()
+	c04InitZones()
+	c04DataDir = t.TempDir()
 	c04Prelude(t, out)
 
 	r := vfNewRand(out.Seed)
-	nHist := out.Scale(260, 6000)
+	nHist := out.Scale(200, 5000)
 	totalOps, maxOps := 0, 0
 	for i := 0; i < nHist; i++ {
 		hr := r.Fork(uint64(i))
